@@ -1,6 +1,6 @@
 (* C02  Header section is well-formed and injection-proof for any supplied text.  Statements only. *)
 From Coq Require Import Strings.String.
-From LV Require Import Base.Bytes Base.Str Base.Res Model.HeaderEnc Spec.Rfc5322 Proofs.HeaderProofs Proofs.StructuredSafeProofs.
+From LV Require Import Base.Bytes Base.Str Base.Res Model.HeaderEnc Spec.Rfc5322 Proofs.HeaderProofs Proofs.StructuredSafeProofs Model.BuilderFields Proofs.BuilderFieldsProofs.
 From Coq Require Import Arith PeanoNat Lia.
 
 (* For EVERY name and EVERY value (any byte string: CR, LF, NUL, ':', non-ASCII, any length) the
@@ -57,6 +57,27 @@ Proof.
     apply forallb_forall. intros x Hx. destruct (Hf x Hx). unfold is_ftext_b. lia.
 Qed.
 
+(* A built message has exactly one Date and one From field, and MIME-Version exactly when its body is
+   MIME: for EVERY sequence of builder calls (from / to / cc / bcc / reply_to / sender / date /
+   subject / header(MIME-Version) / header(h) for a caller-defined type of any name / keep_bcc /
+   envelope) and either way of giving the body, the header section held by the built message
+   (`fields_after`, Model/BuilderFields.v) has one Date; one From when a from call was made (a builder
+   without one is refused: MissingFrom, C01); MIME-Version once when the body is MIME, and for a raw
+   body only if the caller set that field; Bcc only if keeping it was requested; and never two
+   fields of one name (names compared without regard to letter case). *)
+Theorem C02_required_fields : forall (ops : list fop) (k : bodykind),
+  count_name (bs "Date") (fields_after ops k) = 1%nat /\
+  count_name (bs "From") (fields_after ops k) = (if sets (bs "From") ops then 1 else 0)%nat /\
+  count_name (bs "MIME-Version") (fields_after ops k) =
+    (match k with KMime => 1 | KRaw => if sets (bs "MIME-Version") ops then 1 else 0 end)%nat /\
+  count_name (bs "Bcc") (fields_after ops k) = (if keeps_bcc ops && sets (bs "Bcc") ops then 1 else 0)%nat /\
+  (forall n, count_name n (fields_after ops k) <= 1)%nat.
+Proof. exact required_fields. Qed.
+Example C02_required_fields_example :
+  fields_after [FFrom; FBcc; FTo; FHeader (bs "mime-version"); FSubject; FHeader (bs "SUBJECT"); FFrom] KMime
+  = [bs "From"; bs "To"; bs "mime-version"; bs "Subject"; bs "Date"].
+Proof. vm_compute. reflexivity. Qed.
+
 Example C02_example_injection :
   header_value_encode (bs "Subject") [97; 13; 10; 66; 99; 99; 58; 32; 120] = Ok (bs "=?utf-8?b?YQ0KQmNjOg==?= x").
 Proof. vm_compute. reflexivity. Qed.
@@ -68,3 +89,4 @@ Print Assumptions C02_fields.
 Print Assumptions C02_names.
 Print Assumptions C02_mailboxes_safe.
 Print Assumptions C02_content_disposition_safe.
+Print Assumptions C02_required_fields.
